@@ -445,4 +445,446 @@ theorem src_jsx_tag_copyC20b (h : JSXTag_copyC20b_available = true)
     simp only [fieldGet?, fieldSet, String.reduceEq, ↓reduceIte, hany, Bool.false_eq_true, ok_bind, pure_eq_ok,
       Option.isSome_none, throw_eq_error])
 
+/-! ### the visitor of `JSXTag.tagify` -/
+
+/-- `JSXTag.__copy__` on any JSXTag object whose `attrs` dict has no key with `_` -/
+theorem jsx_copy_objC20b (h : JSXTag_copyC20b_available = true) (G : Globals) (a c : PVal) (kvs : List (Str × PVal))
+    (hk : kvs.any (fun kv => kv.1.contains '_') = false) (hc : pyCopyC20b c = .ok c) :
+    JSXTag_copyC20b G (.obj "JSXTag" [("name", a), ("attrs", .dict kvs), ("children", c)])
+      = .ok (.obj "JSXTag" [("name", a), ("attrs", .dict kvs), ("children", c)]) := by
+  first
+  | exact absurd h (by decide)
+  | skip
+  all_goals (
+    unfold JSXTag_copyC20b
+    simp only [pyNewLikeC20b, pyDictAttrUpdateC20b, pure_eq_ok, ok_bind, List.foldl_cons, List.foldl_nil, fieldSet,
+      pyGetAttr, fieldGet?, pySetAttr, String.reduceEq, ↓reduceIte, hc]
+    simp only [pyCopyC20b, hk, Bool.false_eq_true, if_false, ok_bind, pure_eq_ok])
+
+theorem visitor_nodeC20b (h : JSXTag_tagify_visitorC20b_available = true) (hc : JSXTag_copyC20b_available = true)
+    (G : Globals) (ι : Str → Option Int) (fuel : Nat) (mds : List PVal) (x : JNode) (hx : visOkC20b (.node x) = true)
+    (hnt : ∀ e, x ≠ .tobj e) :
+    JSXTag_tagify_visitorC20b G (fuel + 1) (.list mds) (embInNC20b ι x)
+      = .ok (.tuple [visOutC20b ι (.node x), .list (mds ++ visMetasC20b ι (.node x))]) := by
+  first
+  | exact absurd h (by decide)
+  | skip
+  all_goals (
+    rw [JSXTag_tagify_visitorC20b]
+    cases x with
+    | comp n ps ks =>
+      have hcls : pyClassOf (embInNC20b ι (.comp n ps ks)) = "JSXTag" := rfl
+      have hcp := jsx_copy_objC20b hc G (.str n) (.obj "TagList" [("data", .list (embInKC20b ι ks))]) (embInPC20b ι ps)
+        (clean_anyC20b _ (by rw [embInP_keysC20b]; exact hx)) (by simp [pyCopyC20b, pyCopy, fieldGet?])
+      simp only [hcls, embInNC20b] at hcp ⊢
+      simp [isInstanceJ, jsxText?, isInstance, classBases, pyAnd, hcp, visOutC20b, visMetasC20b, embInVC20b, embInNC20b, pyClassOf]
+    | tag n a ks =>
+      have hcls : pyClassOf (embInNC20b ι (.tag n a ks)) = "Tag" := rfl
+      have hk := embAttrs_cleanC20b a hx
+      have hcopy : pyCopyObjC20b (embInNC20b ι (.tag n a ks)) = .ok (embInNC20b ι (.tag n a ks)) := by
+        simp only [embInNC20b, pyCopyObjC20b, fieldGet?, embAttrs, String.reduceEq, ↓reduceIte, String.reduceBEq,
+          Bool.false_eq_true]
+        rw [if_pos (by simp [isInstance]), if_pos hk]
+        simp [pyCopy, fieldGet?]
+      simp only [embInNC20b] at hcopy
+      simp [hcls, embInNC20b, isInstanceJ, jsxText?, isInstance, classBases, pyAnd, visOutC20b, visMetasC20b, embInVC20b,
+        hcopy, pyClassOf]
+    | str k s =>
+      cases k <;>
+        simp [embInNC20b, isInstanceJ, jsxText?, isInstance, classBases, builtinClasses, pyAnd, visOutC20b, visMetasC20b,
+          embInVC20b, pyCopyObjC20b, pyCopyC20b, pyCopy, fieldGet?, pyClassOf, mkJsx]
+    | md m =>
+      cases m <;>
+        simp [embInNC20b, isInstanceJ, jsxText?, isInstance, classBases, pyAnd, visOutC20b, visMetasC20b, embInVC20b,
+          pyCopyObjC20b, pyCopy, fieldGet?, pyClassOf, pyListAppend, embMetaC20b]
+    | tobj e => exact absurd rfl (hnt e)
+    | tobjL es =>
+      simp [embInNC20b, isInstanceJ, jsxText?, isInstance, classBases, pyAnd, visOutC20b, visMetasC20b, embInVC20b,
+        pyCopyObjC20b, pyCopy, fieldGet?, pyClassOf, pyTagifyObj])
+
+/-- the visitor on any value, as the source has it: a tagifiable object that is neither a Tag nor a JSXTag is replaced by
+    what its `tagify()` returns; the value is copied; a metadata node is appended to the captured list -/
+theorem visitor_valC20b (h : JSXTag_tagify_visitorC20b_available = true) (hc : JSXTag_copyC20b_available = true)
+    (G : Globals) (ι : Str → Option Int) (fuel : Nat) (mds : List PVal) (v : JVal) (hv : visOkC20b v = true) :
+    JSXTag_tagify_visitorC20b G (fuel + 1) (.list mds) (embInVC20b ι v)
+      = .ok (.tuple [visOutC20b ι v, .list (mds ++ visMetasC20b ι v)]) := by
+  first
+  | exact absurd h (by decide)
+  | skip
+  all_goals (
+    cases v with
+    | node x =>
+      by_cases hnt : ∀ e, x ≠ .tobj e
+      · exact visitor_nodeC20b h hc G ι fuel mds x hv hnt
+      · have ⟨e, he⟩ : ∃ e, x = .tobj e := by
+          cases x <;> first | exact ⟨_, rfl⟩ | (exfalso; apply hnt; intro e he; cases he)
+        subst he
+        rw [JSXTag_tagify_visitorC20b]
+        simp only [embInVC20b, embInNC20b_tobj]
+        have hcls : pyClassOf (PVal.obj "TagifiableObj" [("tagify", embInNC20b ι e)]) = "TagifiableObj" := rfl
+        have hty : pyTagifyObj (PVal.obj "TagifiableObj" [("tagify", embInNC20b ι e)]) = .ok (embInNC20b ι e) := by
+          simp [pyTagifyObj, fieldGet?]
+        have hi1 : isInstanceJ (PVal.obj "TagifiableObj" [("tagify", embInNC20b ι e)]) ["Tagifiable"] = true := by
+          simp [isInstanceJ, jsxText?, isInstance, classBases]
+        have hi2 : isInstanceJ (PVal.obj "TagifiableObj" [("tagify", embInNC20b ι e)]) ["Tag", "JSXTag"] = false := by
+          simp [isInstanceJ, jsxText?, isInstance, classBases]
+        simp only [hi1, hi2, pyAnd, pure_eq_ok, ok_bind, truthy_bool, Bool.not_false, if_true, hcls, hty]
+        cases e with
+        | comp n ps ks =>
+          have hcp := jsx_copy_objC20b hc G (.str n) (.obj "TagList" [("data", .list (embInKC20b ι ks))]) (embInPC20b ι ps)
+            (clean_anyC20b _ (by rw [embInP_keysC20b]; exact hv)) (by simp [pyCopyC20b, pyCopy, fieldGet?])
+          simp [embInNC20b, isInstanceJ, jsxText?, isInstance, classBases, hcp, visOutC20b, visMetasC20b, pyClassOf]
+        | tag n a ks =>
+          have hk := embAttrs_cleanC20b a hv
+          have hcopy : pyCopyObjC20b (embInNC20b ι (.tag n a ks)) = .ok (embInNC20b ι (.tag n a ks)) := by
+            simp only [embInNC20b, pyCopyObjC20b, fieldGet?, embAttrs, String.reduceEq, ↓reduceIte, String.reduceBEq,
+              Bool.false_eq_true]
+            rw [if_pos (by simp [isInstance]), if_pos hk]
+            simp [pyCopy, fieldGet?]
+          simp only [embInNC20b] at hcopy
+          simp [embInNC20b, isInstanceJ, jsxText?, isInstance, classBases, visOutC20b, visMetasC20b, hcopy, pyClassOf]
+        | str k s =>
+          cases k <;>
+            simp [embInNC20b, isInstanceJ, jsxText?, isInstance, classBases, builtinClasses, visOutC20b, visMetasC20b,
+              pyCopyObjC20b, pyCopyC20b, pyCopy, fieldGet?, pyClassOf, mkJsx]
+        | md m =>
+          cases m <;>
+            simp [embInNC20b, isInstanceJ, jsxText?, isInstance, classBases, visOutC20b, visMetasC20b,
+              pyCopyObjC20b, pyCopy, fieldGet?, pyClassOf, pyListAppend, embMetaC20b]
+        | tobj e' =>
+          simp [embInNC20b_tobj, isInstanceJ, jsxText?, isInstance, classBases, visOutC20b, visMetasC20b,
+            pyCopyObjC20b, pyCopy, fieldGet?, pyClassOf]
+        | tobjL es =>
+          simp [embInNC20b, isInstanceJ, jsxText?, isInstance, classBases, visOutC20b, visMetasC20b,
+            pyCopyObjC20b, pyCopy, fieldGet?, pyClassOf]
+    | null =>
+      rw [JSXTag_tagify_visitorC20b]
+      simp [embInVC20b, isInstanceJ, jsxText?, isInstance, builtinClasses, pyAnd, visOutC20b, visMetasC20b, pyCopyObjC20b,
+        pyCopyC20b, pyCopy, pyClassOf]
+    | bool b =>
+      rw [JSXTag_tagify_visitorC20b]
+      simp [embInVC20b, isInstanceJ, jsxText?, isInstance, builtinClasses, pyAnd, visOutC20b, visMetasC20b, pyCopyObjC20b,
+        pyCopyC20b, pyCopy, pyClassOf]
+    | num t =>
+      rw [JSXTag_tagify_visitorC20b]
+      cases hi : ι t <;>
+        simp [embInVC20b, hi, isInstanceJ, jsxText?, isInstance, builtinClasses, pyAnd, visOutC20b, visMetasC20b, pyCopyObjC20b,
+          pyCopyC20b, pyCopy, pyClassOf]
+    | list tup vs =>
+      rw [JSXTag_tagify_visitorC20b]
+      cases tup <;>
+        simp [embInVC20b, isInstanceJ, jsxText?, isInstance, builtinClasses, pyAnd, visOutC20b, visMetasC20b, pyCopyObjC20b,
+          pyCopyC20b, pyCopy, pyClassOf]
+    | dict fs =>
+      rw [JSXTag_tagify_visitorC20b]
+      have hk := clean_anyC20b (embInPC20b ι fs) (by rw [embInP_keysC20b]; exact hv)
+      have hcopy : pyCopyObjC20b (PVal.dict (embInPC20b ι fs)) = .ok (PVal.dict (embInPC20b ι fs)) := by
+        simp only [pyCopyObjC20b, pyCopyC20b]
+        rw [if_neg (by rw [hk]; decide)]
+        rfl
+      simp [embInVC20b, isInstanceJ, jsxText?, isInstance, builtinClasses, pyAnd, visOutC20b, visMetasC20b, hcopy, pyClassOf])
+
+/-- `JSXTagAttrDict.__setitem__` on any dict and any value -/
+theorem jsx_setitem_dictC20b (h : JSXTagAttrDict_setitemC20b_available = true) (hn : JSX_normalize_attr_name_available = true)
+    (G : Globals) (kvs : List (Str × PVal)) (k : Str) (v : PVal) :
+    JSXTagAttrDict_setitemC20b G (.dict kvs) (.str k) v = .ok (.dict (Py.dictSet (normAttrName k) v kvs)) := by
+  first
+  | exact absurd h (by decide)
+  | (unfold JSXTagAttrDict_setitemC20b
+     simp only [src_jsx_normalize_attr_name hn, ok_bind, pure_eq_ok, pySetItem])
+
+/-! ### `_walk_attrs_and_children` -/
+
+theorem isInstJ_compC20b (ι : Str → Option Int) (n : Str) (d c : PVal) :
+    isInstanceJ (.obj "JSXTag" [("name", .str n), ("attrs", d), ("children", c)]) ["Tag"] = false
+    ∧ isInstanceJ (.obj "JSXTag" [("name", .str n), ("attrs", d), ("children", c)]) ["JSXTag"] = true := by
+  simp [isInstanceJ, jsxText?, isInstance, classBases]
+
+-- one pass of a child loop of the walk on the object `mk data`: the child is walked (`HW`), the result is put at its
+-- position, what was collected is handed on
+set_option hygiene false in
+local macro "walk_kid_step_tacC20b" : tactic => `(tactic|
+  (intro pre' c rest m t hc
+   obtain ⟨t1, t2⟩ := t
+   simp only [pyUnpack2_tuple, ok_bind, HW c hc, walkResC20b, JVal.walkVal, embOutVC20b, hget, setItemU_midC20b, hset,
+     embInVC20b]
+   exact ⟨_, rfl⟩))
+
+/-- the walk on a component, given the walk on its prop values and children at the fuel below -/
+theorem walk_compC20b (h : walk_attrs_and_childrenC20b_available = true) (hv : JSXTag_tagify_visitorC20b_available = true)
+    (hc : JSXTag_copyC20b_available = true) (hs : JSXTagAttrDict_setitemC20b_available = true)
+    (hn : JSX_normalize_attr_name_available = true)
+    (G : Globals) (ι : Str → Option Int) (fuel : Nat) (n : Str) (ps : JProps) (ks : JNodes)
+    (hok : walkOkNC20b (.comp n ps ks) = true)
+    (HW : ∀ c ∈ ks.toList, ∀ mds, walk_attrs_and_childrenC20b G (fuel + 1) (embInVC20b ι (.node c)) (.list mds)
+      = walkResC20b ι (.node c) mds)
+    (HP : ∀ kv ∈ ps.toList, ∀ mds, walk_attrs_and_childrenC20b G (fuel + 1) (embInVC20b ι kv.2) (.list mds)
+      = walkResC20b ι kv.2 mds)
+    (mds : List PVal) :
+    walk_attrs_and_childrenC20b G (fuel + 2) (embInNC20b ι (.comp n ps ks)) (.list mds)
+      = walkResC20b ι (.node (.comp n ps ks)) mds := by
+  first
+  | exact absurd h (by decide)
+  | skip
+  all_goals (
+    have hok' : (ps.keys.Nodup ∧ cleanKeysC20b ps.keys = true ∧ walkOkPC20b ps = true) ∧ walkOkKC20b ks = true := by
+      simpa [walkOkNC20b, and_assoc] using hok
+    have HW : ∀ c ∈ ks.toList, ∀ mds, walk_attrs_and_childrenC20b G (fuel + 1) (embInNC20b ι c) (.list mds)
+        = walkResC20b ι (.node c) mds := fun c hc mds => by simpa [embInVC20b] using HW c hc mds
+    rw [walk_attrs_and_childrenC20b]
+    have hvis := visitor_valC20b hv hc G ι fuel mds (.node (.comp n ps ks)) hok'.1.2.1
+    simp only [embInVC20b] at hvis
+    simp only [hvis, ok_bind, pure_eq_ok, pyUnpack2_tuple, truthy_bool, visOutC20b, visMetasC20b, embInVC20b, List.append_nil]
+    simp only [embInNC20b, (isInstJ_compC20b ι n _ _).1, (isInstJ_compC20b ι n _ _).2, Bool.false_eq_true, if_false, if_true]
+    have hga : ∀ d c, pyGetAttr (.obj "JSXTag" [("name", .str n), ("attrs", d), ("children", c)]) "attrs" = .ok d := by
+      intro d c; simp [pyGetAttr, fieldGet?]
+    simp only [hga, ok_bind, pyItems_dict, pyIterJ_listC20b, embInP_toListC20b, List.map_map, Function.comp_def]
+    have hkeys : cleanKeysC20b (ps.toList.map (·.1)) = true := by rw [← keys_toListC20b]; exact hok'.1.2.1
+    have hnd : (([] : List (Str × PVal)).map (·.1) ++ ps.toList.map (·.1)).Nodup := by
+      simpa [← keys_toListC20b] using hok'.1.1
+    refine props_walk_loopC20b
+      (fun d => PVal.obj "JSXTag" [("name", .str n), ("attrs", .dict d), ("children", .obj "TagList" [("data", .list (embInKC20b ι ks))])])
+      (embInVC20b ι) (fun v => embOutVC20b ι (v.walkVal .demanded).node) (fun v => (v.walkVal .demanded).metas.map (embMetaC20b ι))
+      ps.toList [] mds _ hnd _ ?pstep _ _ ?pk
+    case pstep =>
+      intro pre' kv rest m t hkv hfresh
+      obtain ⟨t1, t2⟩ := t
+      have hclean : kv.1.contains '_' = false := by
+        have := (List.all_eq_true.mp hkeys) kv.1 (List.mem_map.2 ⟨kv, hkv, rfl⟩)
+        simpa using this
+      simp only [pyUnpack2_tuple, ok_bind, HP kv hkv, walkResC20b, hga, jsx_setitem_dictC20b hs hn,
+        normAttrName_cleanC20b _ hclean, dictSet_midC20b _ _ _ _ _ hfresh]
+      simp only [pySameKeysC20b, List.map_append, List.map_cons, beq_self_eq_true, if_true, pure_eq_ok, ok_bind, pySetAttr,
+        fieldSet, String.reduceEq, ↓reduceIte]
+      exact ⟨_, rfl⟩
+    case pk =>
+      intro s h1 h2
+      obtain ⟨s1, s2, s3⟩ := s
+      simp only at h1 h2
+      subst h1 h2
+      have hget : ∀ d l, pyGetAttr (PVal.obj "JSXTag" [("name", .str n), ("attrs", d), ("children", .obj "TagList" [("data", .list l)])]) "children"
+          = .ok (.obj "TagList" [("data", .list l)]) := by
+        intro d l; simp [pyGetAttr, fieldGet?]
+      have hset : ∀ d l c, pySetAttr (PVal.obj "JSXTag" [("name", .str n), ("attrs", d), ("children", .obj "TagList" [("data", .list l)])]) "children" c
+          = .ok (PVal.obj "JSXTag" [("name", .str n), ("attrs", d), ("children", c)]) := by
+        intro d l c; simp [pySetAttr, fieldSet]
+      simp only [List.nil_append, hget, ok_bind, pyNotJsxC20b, String.reduceBEq, Bool.false_eq_true, if_false, pure_eq_ok,
+        pyEnumerate_taglistC20b, pyIterJ_listC20b, embInK_toListC20b]
+      refine kids_walk_loopC20b
+        (fun l => PVal.obj "JSXTag" [("name", .str n), ("attrs", _), ("children", .obj "TagList" [("data", .list l)])])
+        (embInNC20b ι) (fun c => embOutNC20b ι (c.walk .demanded).node) (fun c => (c.walk .demanded).metas.map (embMetaC20b ι))
+        ks.toList [] _ _ _ ?kstep _ _ ?kk
+      case kstep => walk_kid_step_tacC20b
+      case kk =>
+        intro s h1 h2
+        obtain ⟨s1, s2, s3⟩ := s
+        simp only at h1 h2
+        subst h1 h2
+        simp only [walkResC20b, JVal.walkVal, JNode.walk, embOutVC20b, embOutNC20b, (walkKids_outC20b ι ks).1,
+          (walkKids_outC20b ι ks).2, (walkProps_outC20b ι ps).1, (walkProps_outC20b ι ps).2, List.nil_append, List.map_append,
+          List.map_flatMap, List.append_assoc, List.flatMap_map])
+
+/-- the walk on an html Tag, given the walk on its children at the fuel below -/
+theorem walk_tagC20b (h : walk_attrs_and_childrenC20b_available = true) (hv : JSXTag_tagify_visitorC20b_available = true)
+    (hc : JSXTag_copyC20b_available = true)
+    (G : Globals) (ι : Str → Option Int) (fuel : Nat) (n : Str) (a : Attrs) (ks : JNodes)
+    (hok : walkOkNC20b (.tag n a ks) = true)
+    (HW : ∀ c ∈ ks.toList, ∀ mds, walk_attrs_and_childrenC20b G (fuel + 1) (embInVC20b ι (.node c)) (.list mds)
+      = walkResC20b ι (.node c) mds)
+    (mds : List PVal) :
+    walk_attrs_and_childrenC20b G (fuel + 2) (embInNC20b ι (.tag n a ks)) (.list mds)
+      = walkResC20b ι (.node (.tag n a ks)) mds := by
+  first
+  | exact absurd h (by decide)
+  | skip
+  all_goals (
+    have hok' : cleanKeysC20b (a.map (·.1)) = true ∧ walkOkKC20b ks = true := by simpa [walkOkNC20b] using hok
+    have HW : ∀ c ∈ ks.toList, ∀ mds, walk_attrs_and_childrenC20b G (fuel + 1) (embInNC20b ι c) (.list mds)
+        = walkResC20b ι (.node c) mds := fun c hc mds => by simpa [embInVC20b] using HW c hc mds
+    rw [walk_attrs_and_childrenC20b]
+    have hvis := visitor_valC20b hv hc G ι fuel mds (.node (.tag n a ks)) hok'.1
+    simp only [embInVC20b] at hvis
+    simp only [hvis, ok_bind, pure_eq_ok, pyUnpack2_tuple, truthy_bool, visOutC20b, visMetasC20b, embInVC20b, List.append_nil]
+    have hit : ∀ d c w, isInstanceJ (.obj "Tag" [("name", .str n), ("attrs", d), ("children", c), ("add_ws", w)]) ["Tag"] = true := by
+      intro d c w; simp [isInstanceJ, jsxText?, isInstance]
+    have hget : ∀ d l w, pyGetAttr (PVal.obj "Tag" [("name", .str n), ("attrs", d), ("children", .obj "TagList" [("data", .list l)]), ("add_ws", w)]) "children"
+        = .ok (.obj "TagList" [("data", .list l)]) := by
+      intro d l w; simp [pyGetAttr, fieldGet?]
+    have hset : ∀ d l w c, pySetAttr (PVal.obj "Tag" [("name", .str n), ("attrs", d), ("children", .obj "TagList" [("data", .list l)]), ("add_ws", w)]) "children" c
+        = .ok (PVal.obj "Tag" [("name", .str n), ("attrs", d), ("children", c), ("add_ws", w)]) := by
+      intro d l w c; simp [pySetAttr, fieldSet]
+    simp only [embInNC20b, hit, if_true, hget, ok_bind, pyNotJsxC20b, String.reduceBEq, Bool.false_eq_true, if_false, pure_eq_ok,
+      pyEnumerate_taglistC20b, pyIterJ_listC20b, embInK_toListC20b]
+    refine kids_walk_loopC20b
+      (fun l => PVal.obj "Tag" [("name", .str n), ("attrs", embAttrs a), ("children", .obj "TagList" [("data", .list l)]), ("add_ws", .bool true)])
+      (embInNC20b ι) (fun c => embOutNC20b ι (c.walk .demanded).node) (fun c => (c.walk .demanded).metas.map (embMetaC20b ι))
+      ks.toList [] _ _ _ ?kstep _ _ ?kk
+    case kstep => walk_kid_step_tacC20b
+    case kk =>
+      intro s h1 h2
+      obtain ⟨s1, s2, s3⟩ := s
+      simp only at h1 h2
+      subst h1 h2
+      simp only [walkResC20b, JVal.walkVal, JNode.walk, embOutVC20b, embOutNC20b, (walkKids_outC20b ι ks).1,
+        (walkKids_outC20b ι ks).2, List.nil_append, List.map_flatMap, List.flatMap_map])
+
+/-- a value the walk does not descend into: the visitor's result is neither a Tag nor a JSXTag -/
+theorem walk_leafC20b (h : walk_attrs_and_childrenC20b_available = true) (hv : JSXTag_tagify_visitorC20b_available = true)
+    (hc : JSXTag_copyC20b_available = true)
+    (G : Globals) (ι : Str → Option Int) (fuel : Nat) (v : JVal) (hok : visOkC20b v = true) (mds : List PVal)
+    (h1 : isInstanceJ (visOutC20b ι v) ["Tag"] = false) (h2 : isInstanceJ (visOutC20b ι v) ["JSXTag"] = false) :
+    walk_attrs_and_childrenC20b G (fuel + 2) (embInVC20b ι v) (.list mds)
+      = .ok (.tuple [visOutC20b ι v, .list (mds ++ visMetasC20b ι v)]) := by
+  first
+  | exact absurd h (by decide)
+  | skip
+  all_goals (
+    rw [walk_attrs_and_childrenC20b]
+    simp only [visitor_valC20b hv hc G ι fuel mds v hok, ok_bind, pure_eq_ok, pyUnpack2_tuple, truthy_bool, h1, h2,
+      Bool.false_eq_true, if_false]
+    exact ite_self _)
+
+/-- two values on which the visitor agrees are walked alike -/
+theorem walk_congrC20b (h : walk_attrs_and_childrenC20b_available = true) (G : Globals) (fuel : Nat) (x x' fn : PVal)
+    (hvis : JSXTag_tagify_visitorC20b G fuel fn x = JSXTag_tagify_visitorC20b G fuel fn x') :
+    walk_attrs_and_childrenC20b G (fuel + 1) x fn = walk_attrs_and_childrenC20b G (fuel + 1) x' fn := by
+  first
+  | exact absurd h (by decide)
+  | (rw [walk_attrs_and_childrenC20b, walk_attrs_and_childrenC20b, hvis])
+
+/-- the walk on one value, given the walk on everything below it at the fuel below -/
+theorem walk_stepC20b (h : walk_attrs_and_childrenC20b_available = true) (hv : JSXTag_tagify_visitorC20b_available = true)
+    (hc : JSXTag_copyC20b_available = true) (hs : JSXTagAttrDict_setitemC20b_available = true)
+    (hn : JSX_normalize_attr_name_available = true)
+    (G : Globals) (ι : Str → Option Int) (fuel : Nat) (v : JVal) (hok : walkOkVC20b v = true)
+    (HW : ∀ w : JVal, whVC20b w < whVC20b v → walkOkVC20b w = true → ∀ mds,
+      walk_attrs_and_childrenC20b G (fuel + 1) (embInVC20b ι w) (.list mds) = walkResC20b ι w mds)
+    (mds : List PVal) :
+    walk_attrs_and_childrenC20b G (fuel + 2) (embInVC20b ι v) (.list mds) = walkResC20b ι v mds := by
+  have hvok := visOk_of_walkOkC20b v hok
+  -- a component / a tag `x`, directly or as the expansion of a tagifiable object: what is below it is below `v`
+  have hcomp : ∀ n ps ks, whNC20b (.comp n ps ks) ≤ whVC20b v → walkOkNC20b (.comp n ps ks) = true → ∀ mds,
+      walk_attrs_and_childrenC20b G (fuel + 2) (embInNC20b ι (.comp n ps ks)) (.list mds)
+        = walkResC20b ι (.node (.comp n ps ks)) mds := by
+    intro n ps ks hle hk mds
+    have hk' : (ps.keys.Nodup ∧ cleanKeysC20b ps.keys = true ∧ walkOkPC20b ps = true) ∧ walkOkKC20b ks = true := by
+      simpa [walkOkNC20b, and_assoc] using hk
+    refine walk_compC20b h hv hc hs hn G ι fuel n ps ks hk ?_ ?_ mds
+    · intro c hc' m
+      exact HW (.node c) (by have := whK_memC20b ks c hc'; simp only [whVC20b, whNC20b] at hle ⊢; omega)
+        (walkOkK_memC20b ks hk'.2 c hc') m
+    · intro kv hkv m
+      exact HW kv.2 (by have := whP_memC20b ps kv hkv; simp only [whNC20b] at hle; omega) (walkOkP_memC20b ps hk'.1.2.2 kv hkv) m
+  have htag : ∀ n a ks, whNC20b (.tag n a ks) ≤ whVC20b v → walkOkNC20b (.tag n a ks) = true → ∀ mds,
+      walk_attrs_and_childrenC20b G (fuel + 2) (embInNC20b ι (.tag n a ks)) (.list mds)
+        = walkResC20b ι (.node (.tag n a ks)) mds := by
+    intro n a ks hle hk mds
+    have hk' : cleanKeysC20b (a.map (·.1)) = true ∧ walkOkKC20b ks = true := by simpa [walkOkNC20b] using hk
+    refine walk_tagC20b h hv hc G ι fuel n a ks hk ?_ mds
+    intro c hc' m
+    exact HW (.node c) (by have := whK_memC20b ks c hc'; simp only [whVC20b, whNC20b] at hle ⊢; omega)
+      (walkOkK_memC20b ks hk'.2 c hc') m
+  cases v with
+  | node x =>
+    cases x with
+    | comp n ps ks => exact hcomp n ps ks (Nat.le_refl _) hok mds
+    | tag n a ks => exact htag n a ks (Nat.le_refl _) hok mds
+    | str k s =>
+      rw [walk_leafC20b h hv hc G ι fuel _ hvok mds (by cases k <;> simp [visOutC20b, embInVC20b, embInNC20b, isInstanceJ, jsxText?, isInstance, builtinClasses, mkJsx, fieldGet?, classBases])
+        (by cases k <;> simp [visOutC20b, embInVC20b, embInNC20b, isInstanceJ, jsxText?, isInstance, builtinClasses, mkJsx, fieldGet?, classBases])]
+      cases k <;> simp [walkResC20b, JVal.walkVal, JNode.walk, visOutC20b, visMetasC20b, embOutVC20b, embOutNC20b, embInVC20b]
+    | md m =>
+      rw [walk_leafC20b h hv hc G ι fuel _ hvok mds (by cases m <;> simp [visOutC20b, embInVC20b, embInNC20b, isInstanceJ, jsxText?, isInstance, classBases])
+        (by cases m <;> simp [visOutC20b, embInVC20b, embInNC20b, isInstanceJ, jsxText?, isInstance, classBases])]
+      simp [walkResC20b, JVal.walkVal, JNode.walk, visOutC20b, visMetasC20b, embOutVC20b, embOutNC20b, embInVC20b]
+    | tobjL es =>
+      rw [walk_leafC20b h hv hc G ι fuel _ hvok mds (by simp [visOutC20b, isInstanceJ, jsxText?, isInstance, classBases])
+        (by simp [visOutC20b, isInstanceJ, jsxText?, isInstance, classBases])]
+      simp [walkResC20b, JVal.walkVal, JNode.walk, visOutC20b, visMetasC20b, embOutVC20b, embOutNC20b]
+    | tobj e =>
+      cases e with
+      | comp n ps ks =>
+        have hveq : JSXTag_tagify_visitorC20b G (fuel + 1) (.list mds) (embInVC20b ι (.node (.tobj (.comp n ps ks))))
+            = JSXTag_tagify_visitorC20b G (fuel + 1) (.list mds) (embInVC20b ι (.node (.comp n ps ks))) := by
+          rw [visitor_valC20b hv hc G ι fuel mds _ hvok, visitor_valC20b hv hc G ι fuel mds (.node (.comp n ps ks)) hvok]
+          rfl
+        rw [walk_congrC20b h G (fuel + 1) _ _ _ hveq]
+        have := hcomp n ps ks (Nat.le_refl _) hok mds
+        simp only [embInVC20b] at this ⊢
+        rw [this]
+        simp [walkResC20b, JVal.walkVal, JNode.walk, JNode.walkExp]
+      | tag n a ks =>
+        have hveq : JSXTag_tagify_visitorC20b G (fuel + 1) (.list mds) (embInVC20b ι (.node (.tobj (.tag n a ks))))
+            = JSXTag_tagify_visitorC20b G (fuel + 1) (.list mds) (embInVC20b ι (.node (.tag n a ks))) := by
+          rw [visitor_valC20b hv hc G ι fuel mds _ hvok, visitor_valC20b hv hc G ι fuel mds (.node (.tag n a ks)) hvok]
+          rfl
+        rw [walk_congrC20b h G (fuel + 1) _ _ _ hveq]
+        have := htag n a ks (Nat.le_refl _) hok mds
+        simp only [embInVC20b] at this ⊢
+        rw [this]
+        simp [walkResC20b, JVal.walkVal, JNode.walk, JNode.walkExp]
+      | str k s =>
+        rw [walk_leafC20b h hv hc G ι fuel _ hvok mds (by cases k <;> simp [visOutC20b, embInNC20b, isInstanceJ, jsxText?, isInstance, builtinClasses, mkJsx, fieldGet?, classBases])
+          (by cases k <;> simp [visOutC20b, embInNC20b, isInstanceJ, jsxText?, isInstance, builtinClasses, mkJsx, fieldGet?, classBases])]
+        cases k <;> simp [walkResC20b, JVal.walkVal, JNode.walk, JNode.walkExp, visOutC20b, visMetasC20b, embOutVC20b, embOutNC20b]
+      | md m =>
+        rw [walk_leafC20b h hv hc G ι fuel _ hvok mds (by cases m <;> simp [visOutC20b, embInNC20b, isInstanceJ, jsxText?, isInstance, classBases])
+          (by cases m <;> simp [visOutC20b, embInNC20b, isInstanceJ, jsxText?, isInstance, classBases])]
+        simp [walkResC20b, JVal.walkVal, JNode.walk, JNode.walkExp, visOutC20b, visMetasC20b, embOutVC20b, embOutNC20b]
+      | tobj e' =>
+        rw [walk_leafC20b h hv hc G ι fuel _ hvok mds (by simp [visOutC20b, embInNC20b_tobj, isInstanceJ, jsxText?, isInstance, classBases])
+          (by simp [visOutC20b, embInNC20b_tobj, isInstanceJ, jsxText?, isInstance, classBases])]
+        simp [walkResC20b, JVal.walkVal, JNode.walk, JNode.walkExp, visOutC20b, visMetasC20b, embOutVC20b, embOutNC20b]
+      | tobjL es => simp [walkOkVC20b, walkOkNC20b] at hok
+  | null =>
+    rw [walk_leafC20b h hv hc G ι fuel _ hvok mds (by simp [visOutC20b, embInVC20b, isInstanceJ, jsxText?, isInstance, builtinClasses])
+      (by simp [visOutC20b, embInVC20b, isInstanceJ, jsxText?, isInstance, builtinClasses])]
+    simp [walkResC20b, JVal.walkVal, visOutC20b, visMetasC20b, embOutVC20b]
+  | bool b =>
+    rw [walk_leafC20b h hv hc G ι fuel _ hvok mds (by simp [visOutC20b, embInVC20b, isInstanceJ, jsxText?, isInstance, builtinClasses])
+      (by simp [visOutC20b, embInVC20b, isInstanceJ, jsxText?, isInstance, builtinClasses])]
+    simp [walkResC20b, JVal.walkVal, visOutC20b, visMetasC20b, embOutVC20b]
+  | num t =>
+    rw [walk_leafC20b h hv hc G ι fuel _ hvok mds (by cases hi : ι t <;> simp [visOutC20b, embInVC20b, hi, isInstanceJ, jsxText?, isInstance, builtinClasses])
+      (by cases hi : ι t <;> simp [visOutC20b, embInVC20b, hi, isInstanceJ, jsxText?, isInstance, builtinClasses])]
+    simp [walkResC20b, JVal.walkVal, visOutC20b, visMetasC20b, embOutVC20b]
+  | list tup vs =>
+    rw [walk_leafC20b h hv hc G ι fuel _ hvok mds (by cases tup <;> simp [visOutC20b, embInVC20b, isInstanceJ, jsxText?, isInstance, builtinClasses])
+      (by cases tup <;> simp [visOutC20b, embInVC20b, isInstanceJ, jsxText?, isInstance, builtinClasses])]
+    simp [walkResC20b, JVal.walkVal, visOutC20b, visMetasC20b, embOutVC20b]
+  | dict fs =>
+    rw [walk_leafC20b h hv hc G ι fuel _ hvok mds (by simp [visOutC20b, embInVC20b, isInstanceJ, jsxText?, isInstance, builtinClasses])
+      (by simp [visOutC20b, embInVC20b, isInstanceJ, jsxText?, isInstance, builtinClasses])]
+    simp [walkResC20b, JVal.walkVal, visOutC20b, visMetasC20b, embOutVC20b]
+
+/-- the walk on every value of height ≤ n, with any fuel above the height -/
+theorem src_walk_depthC20b (h : walk_attrs_and_childrenC20b_available = true) (hv : JSXTag_tagify_visitorC20b_available = true)
+    (hc : JSXTag_copyC20b_available = true) (hs : JSXTagAttrDict_setitemC20b_available = true)
+    (hn : JSX_normalize_attr_name_available = true) (G : Globals) (ι : Str → Option Int) (n : Nat) :
+    ∀ v : JVal, walkOkVC20b v = true → whVC20b v ≤ n → ∀ fuel, whVC20b v + 1 ≤ fuel → ∀ mds,
+      walk_attrs_and_childrenC20b G fuel (embInVC20b ι v) (.list mds) = walkResC20b ι v mds := by
+  induction n with
+  | zero => intro v _ hh; have := whV_posC20b v; omega
+  | succ n ih =>
+    intro v hok hh fuel hf mds
+    obtain ⟨f, rfl⟩ : ∃ f, fuel = f + 2 := ⟨fuel - 2, by have := whV_posC20b v; omega⟩
+    refine walk_stepC20b h hv hc hs hn G ι f v hok ?_ mds
+    intro w hw hwok m
+    exact ih w hwok (by omega) (f + 1) (by omega) m
+
+/-- `_walk_attrs_and_children(x, fn)` as the source has it, with `fn` the visitor of `JSXTag.tagify` closed over a list that
+    holds `mds`: the pair of the walked copy — `(x.walk d).node` of Model/Jsx.lean: every tagifiable object that is neither a
+    Tag nor a JSXTag replaced by what its `tagify()` returns, recursively through children and prop values — and the list
+    extended by the metadata nodes the walk met, in its order (`(x.walk d).metas`; `C20_collected`: in document order) -/
+theorem src_walk_attrs_and_childrenC20b (h : walk_attrs_and_childrenC20b_available = true)
+    (hv : JSXTag_tagify_visitorC20b_available = true)
+    (hc : JSXTag_copyC20b_available = true) (hs : JSXTagAttrDict_setitemC20b_available = true)
+    (hn : JSX_normalize_attr_name_available = true) (G : Globals) (ι : Str → Option Int)
+    (x : JNode) (hok : walkOkNC20b x = true) (fuel : Nat) (hf : whNC20b x + 1 ≤ fuel) (mds : List PVal) (d : Discipline) :
+    walk_attrs_and_childrenC20b G fuel (embInNC20b ι x) (.list mds)
+      = .ok (.tuple [embOutNC20b ι (x.walk d).node, .list (mds ++ (x.walk d).metas.map (embMetaC20b ι))]) := by
+  have := src_walk_depthC20b h hv hc hs hn G ι (whNC20b x) (.node x) hok (Nat.le_refl _) fuel hf mds
+  simp only [embInVC20b, walkResC20b, JVal.walkVal, embOutVC20b] at this
+  rw [this, walk_node_indep d .demanded, walk_metas d, walk_metas .demanded]
+
 end HtmlVerif.SrcTie
